@@ -223,6 +223,7 @@ def part_a(jp, rec, R, n_cases):
                     srcs.append((q0, docs[0], texts[0]))
         solo = []
         ok = True
+        t_solo = time.time()
         for q, v, t in srcs:
             o = mon.observe(lambda: list(q.finditer(v)))
             if o[0] != "ok":
@@ -235,6 +236,10 @@ def part_a(jp, rec, R, n_cases):
                 continue
         lengths = [min(len(s), 6) for s in solo]
         if sum(len(s) for s in solo) > 18:
+            continue
+        if time.time() - t_solo > 0.05:
+            # up to 3000 schedules repeat these evaluations: a case whose plain evaluation is already slow is left out
+            rec.feat("skipped:slow-evaluation")
             continue
         lengths = [len(s) for s in solo]
         nsched = 0
